@@ -17,6 +17,21 @@ CHECKS = {
    technique="stateless exhaustive exploration of the real lexer/parser over the full input trie (character classes to length N, line templates to L lines)",
    text="Every string over the 10 (thorough: 11) deb822 character classes up to length 6 (thorough 8), every sequence of 16 line templates x 3 terminators up to 2/3 lines and x LF up to 4/5 lines, and every lexer-mode witness x every ASCII / sample non-ASCII character is executed on the real strict, tolerant and Read-based readers and the lexer; the printed tree, the strict/tolerant agreement and the token partition are compared with the input itself. Exhaustive within the bound, so any lexer-mode x class or parser-recovery defect reachable by such a string is found; beyond the bound the argument is finite control + data independence.",
    note="Class abstraction validated against the implementation per run (class_validation block). Strings longer than the bound are not explored."),
+ "C03": dict(
+   category="exploration", design_ref="DESIGN.md §3 C03, §2.4",
+   technique="bounded exhaustive enumeration (all layout vectors with <= k deviations per PxF skeleton) of generated documents carrying their intended reading, executed on the real strict reader",
+   text="Every document whose layout differs from the simplest one in at most k slots (k=2 quick; 3-4 thorough; 9 skeletons of 1-3 paragraphs x 1-3 fields; slots: comments, names incl. duplicates and odd characters, colon spacing, first/continuation lines, indents, separators, trivia, final newline) is generated together with its model and read by the strict reader; paragraphs, items, keys, get/get_all/contains_key and Paragraph::from_str are compared with the model; every k<=1 document with one junk line inserted at every position must be rejected. Complete for all k-way interactions of layout choices, which unit tests sample one at a time.",
+   note="Model decisions in DESIGN §3 C03 (value = non-empty lines). Field names/values outside the menus are not explored."),
+ "C06": dict(
+   category="model_checking", design_ref="DESIGN.md §3 C06",
+   technique="stateless exhaustive exploration of both real readers over the full input trie (C01 spaces) plus all C03 documents; differential oracle",
+   text="Every string of C01's spaces is read by the lossy and the lossless reader; whenever both accept, paragraphs, names and non-blank value lines must be equal and lossy::Paragraph::from_str must agree; every C03 document must be accepted by both readers with equal content. The outcome histogram (both-accept / only-one / both-reject) is in the evidence and a run without both-accept cases fails as vacuous.",
+   note="A lossy reader crash on a string that is not a well-formed document is left to C02."),
+ "C09": dict(
+   category="model_checking", design_ref="DESIGN.md §3 C09, §2.3",
+   technique="stateless exhaustive exploration of the real relations lexer/parser over the full input trie (21 character classes to length N, 20 multi-character tokens to T tokens), loop-tick budget for non-termination",
+   text="Every string over the 21 relation character classes up to length 5 (thorough 6) and every sequence of 20 relation tokens up to 4 (thorough 6) tokens is parsed with substvars off and on, by the strict reader and by the single-entry/single-relation readers; printed text must equal the input, strict must succeed exactly when the tolerant reader reports no error, and a parser loop that exceeds the quadratic tick budget is reported as a hang instead of exhausting memory.",
+   note="Identifier characters and 'other' characters are represented by one class member each; strings longer than the bound are not explored."),
 }
 
 PENDING_REASON = "check not built yet in this round (work in progress; DESIGN.md §3 describes the intended bounded exhaustive exploration)"
